@@ -34,6 +34,8 @@ pub fn meta() -> Meta {
             ("entered_during_ei", 10),
             ("second_trigger_during_reti", 10),
             ("pair_runs", 10_000),
+            ("pair_runs_with_two_entries", 500),
+            ("expected_zero_with_ie_set", 200),
         ],
     }
 }
@@ -85,13 +87,28 @@ fn gen_program(rng: &mut Rng, family: u8) -> Option<Prog> {
     b.emit(&[0x2C]); // RETI
     b.place(main);
     b.ldsp_imm(prog::STACK_TOP);
-    b.emit(&[0xFB, 0x01, 0x5F, 0xF9]); // BITS (0xF9), #1
-    b.emit(&[0x08]); // EI
+    if family == 3 {
+        // IE first, the enable bit later; the program switches the enable bit off and on again
+        b.emit(&[0x08]);
+        b.emit(&[0x02, 0x44, 0x02]);
+        b.st_abs_imm(0xF9, 0x01);
+    } else {
+        b.emit(&[0xFB, 0x01, 0x5F, 0xF9]); // BITS (0xF9), #1
+        b.emit(&[0x08]); // EI
+    }
     let subs: Vec<_> = (0..2).map(|_| b.label()).collect();
     let o = BodyOpts { statements: 6 + rng.usize(14), ie_changes: family == 2, outputs: true };
     prog::body(&mut b, rng, &o, &subs);
     if family == 2 {
         b.emit(&[0x08]);
+    }
+    if family == 3 {
+        b.st_abs_imm(0xF9, 0x00);
+        b.ld_imm(0, 9);
+        b.alu(0xB0, 0, 0);
+        b.st_abs(prog::DATA_LO, 0);
+        b.emit(&[0x02, 0x02]);
+        b.st_abs_imm(0xF9, 0x01);
     }
     // make sure every program has a MUL, a DIV, a CALL and a two-byte instruction in its main flow
     b.ld_imm(0, 2 + rng.below(60) as u8);
@@ -173,6 +190,8 @@ type V = (String, String);
 
 struct RunOut {
     entries: u32,
+    /// instruction ends that sampled a latched request with IE set
+    must_enter: u32,
     fin: Machine,
 }
 
@@ -186,15 +205,32 @@ fn interrupted_run(r: &Reference, t0: usize, triggers: &[usize], check_entry: bo
     verif::set_fuel(Some(max as u64 + 100));
     let mut t = t0;
     let mut reti_trigger = false;
+    let mut must_enter = 0u32;
     while m.state() == State::Running && t < max {
         if triggers.contains(&t) {
+            let s = m.verif_snapshot();
             if t != t0 {
-                let a = m.verif_snapshot().micro_address;
+                let a = s.micro_address;
                 if a == 0x043 || (0x04A..=0x04C).contains(&a) {
                     reti_trigger = true;
                 }
             }
+            let armed = m.bus().is_key_edge_int_enabled() && real::arch(&m).fr & IE != 0 && s.pending_register_write != Some(4);
             m.trigger_key_interrupt();
+            if armed && !m.verif_snapshot().pending_edge_interrupt {
+                verif::set_fuel(None);
+                return Err(("C04:enabled-trigger-not-latched".into(), format!("key pressed at cycle {} with the enable bit and IE set, but no request is pending afterwards", t)));
+            }
+        }
+        {
+            // an instruction end that samples a latched request with IE set has to enter the routine
+            let s = m.verif_snapshot();
+            if !s.pending_wait_for_memory && is_sampling_word(s.micro_address) && s.pending_edge_interrupt {
+                let ie = if s.pending_register_write == Some(4) { s.alu_output & IE != 0 } else { real::arch(&m).fr & IE != 0 };
+                if ie {
+                    must_enter += 1;
+                }
+            }
         }
         real::edge(&mut m);
         let d = m.is_instruction_done();
@@ -248,7 +284,7 @@ fn interrupted_run(r: &Reference, t0: usize, triggers: &[usize], check_entry: bo
     if m.state() != State::Stopped {
         return Err(("C04:interrupted-run-does-not-stop".into(), format!("the interrupted run ended {} after {} cycles, the uninterrupted run stops regularly", real::state_name(m.state()), t - t0)));
     }
-    Ok(RunOut { entries, fin: m })
+    Ok(RunOut { entries, must_enter, fin: m })
 }
 
 fn compare_final(r: &Reference, out: &RunOut) -> Option<V> {
@@ -347,6 +383,10 @@ fn check_program(p: &Prog, rng: &mut Rng, quick: bool, rep: &mut Report, only: O
             rep.violate("C04:count-mismatch", format!("routine counted {} entries, {} entries observed at address 2", counted, out.entries), witness(p, triggers));
             return;
         }
+        if out.entries != out.must_enter {
+            rep.violate("C04:entries-differ-from-sampled-requests", format!("triggers at {:?}: {} instruction end(s) sampled a latched request with IE set, but the routine was entered {} time(s)", triggers, out.must_enter, out.entries), witness(p, triggers));
+            return;
+        }
         if out.entries as usize > triggers.len() {
             rep.violate("C04:entered-more-than-triggered", format!("{} trigger(s) at {:?} but the routine was entered {} times", triggers.len(), triggers, out.entries), witness(p, triggers));
             return;
@@ -356,11 +396,14 @@ fn check_program(p: &Prog, rng: &mut Rng, quick: bool, rep: &mut Report, only: O
             let armed = micr0 && fr0 & IE != 0;
             if !micr0 {
                 rep.inc("expected_zero_checked");
+                if fr0 & IE != 0 {
+                    rep.inc("expected_zero_with_ie_set");
+                }
                 if out.entries != 0 {
                     rep.violate("C04:entered-while-disabled", format!("key pressed at cycle {} while the key-edge enable bit is clear, routine entered {} time(s)", t0, out.entries), witness(p, triggers));
                     return;
                 }
-            } else if armed && p.family == 1 && t0 <= r.last_sample {
+            } else if armed && p.family != 2 && t0 <= r.last_sample {
                 rep.inc("entries_checked");
                 if out.entries != 1 {
                     rep.violate("C04:not-entered-exactly-once", format!("key pressed at cycle {} with enable bit and IE set, routine entered {} time(s)", t0, out.entries), witness(p, triggers));
@@ -377,6 +420,9 @@ fn check_program(p: &Prog, rng: &mut Rng, quick: bool, rep: &mut Report, only: O
             rep.class(&[snap0.micro_address as u64, snap0.pending_wait_for_memory as u64, out.entries as u64]);
         } else {
             rep.inc("pair_runs");
+            if out.entries > 1 {
+                rep.inc("pair_runs_with_two_entries");
+            }
         }
         if let Some((sig, what)) = compare_final(&r, &out) {
             rep.violate(&sig, format!("trigger at cycle(s) {:?}: {}", triggers, what), witness(p, triggers));
@@ -392,10 +438,12 @@ fn check_program(p: &Prog, rng: &mut Rng, quick: bool, rep: &mut Report, only: O
     for t in 0..t_len {
         one(&[t], true, rep);
     }
-    // pairs in a sliding window
-    let pair_starts = if quick { 4 } else { 40 };
-    for _ in 0..pair_starts {
-        let t1 = rng.usize(t_len);
+    // pairs in a sliding window; some first triggers are placed where a request is latched but
+    // dropped (enable bit set, IE clear)
+    let dropped: Vec<usize> = (0..t_len).filter(|t| r.snaps[*t].bus().is_key_edge_int_enabled() && real::arch(&r.snaps[*t]).fr & IE == 0).collect();
+    let pair_starts = if quick { 5 } else { 40 };
+    for k in 0..pair_starts {
+        let t1 = if k % 2 == 0 && !dropped.is_empty() { dropped[rng.usize(dropped.len())] } else { rng.usize(t_len) };
         let w = 120;
         for d in 1..w {
             if t1 + d < t_len + 40 {
@@ -410,7 +458,11 @@ pub fn run(ctx: &Ctx) -> Report {
     let quick = ctx.quick();
     par_items(ctx.threads, n, ctx.seed, move |i, seed, rep| {
         let mut rng = Rng::new(seed);
-        let family = if i % 4 == 3 { 2 } else { 1 };
+        let family = match i % 8 {
+            3 => 2,
+            7 => 3,
+            _ => 1,
+        };
         let p = match gen_program(&mut rng, family) {
             Some(p) => p,
             None => {
